@@ -76,8 +76,8 @@ prop('C09', prefix=['c09'],
      outside='deeper trees, other functions, LAMBDA/LET, implicit intersection and spill operators, numbers that print in scientific notation, the xlsx export form, '
              'other locales, the operator trees and leaf menus of (a)/(b) in other languages')
 prop('C10', prefix=['c10'],
-     bounds='one sheet with A1 = 1.5 and four formulas typed in English (SUM/IF with a decimal literal, AND/TRUE with a comparison, * and & with a string, '
-            'IFERROR/MAX over a division by zero); the display language switched to de / es / fr / it (solver chooses) and/or the locale to de (hand-built), '
+     bounds='one sheet with A1 = 1.5 and five formulas typed in English (SUM/IF with a decimal literal, AND/TRUE with a comparison, * and & with a string, '
+            'IFERROR/MAX over a division by zero, IFERROR/ISERROR over the error literals #VALUE! and #N/A); the display language switched to de / es / fr / it (solver chooses) and/or the locale to de (hand-built), '
             'then what is shown typed back there, then switched back; language tables are the engine\'s own (native probe)',
      outside='defined names, the other locales (their tables are a bitcode blob: only en and a hand-built de exist in the encoding), functions whose '
              'result depends on the locale, formulas and numbers beyond the four listed, dates')
